@@ -124,3 +124,9 @@ func init() {
 		Quick:    tierCfg{Shards: 8, Checks: 100, EnumShards: 8, Procs: []int{4, 2, 8, 4}, Parallel: 8, TimeoutS: 1200, ReplayRepeat: 10},
 		Thorough: tierCfg{Shards: 8, Checks: 3000, EnumShards: 8, Procs: []int{4, 2, 8, 4}, Parallel: 8, TimeoutS: 7200, ReplayRepeat: 40}}
 }
+
+func init() {
+	specs["C03"] = propSpec{Level: "fault_enumeration",
+		Quick:    tierCfg{Shards: 8, Checks: 150, EnumShards: 8, Procs: []int{4, 2, 8, 4}, Parallel: 8, TimeoutS: 1200, ReplayRepeat: 20},
+		Thorough: tierCfg{Shards: 8, Checks: 4000, EnumShards: 8, Procs: []int{4, 2, 8, 4}, Parallel: 8, TimeoutS: 7200, ReplayRepeat: 60}}
+}
